@@ -27,6 +27,8 @@ func init() {
 			"let no sub-reconciler error leave Reconcile other than through that mapping. It does not decide what the API server's dry run accepts nor the contents of the RESTMapper.",
 		NotDecided: []string{"what the server-side dry run accepts (API server, trusted)", "RESTMapper contents / discovery freshness",
 			"calls of plain function values (CheckerFn) are not followed by the call closure",
+			"a preflight moved into a helper or closure of ReconcilePhase is not followed (reported as a violation, never passed silently)",
+			"R1 accepts any successful checker.Check in the same function as the guard of a teardown/template write; identity of checked and written object is decided by R5 / C18.R2",
 			"that the multi-cluster phase manager's target cluster confines objects (out of the property's scope: same-cluster only)"},
 		Technique: "SSA guard-dominance dataflow + CHA call closure (who-may-write) + constructor-wiring resolution + path-cut reachability over guard edges (return classification)",
 		Rules: []Rule{
@@ -593,7 +595,8 @@ func (p *Program) c11DuplicateCheck(fn *ssa.Function) (problems, unknown, notes 
 	if look == nil {
 		return []string{"no `_, ok := visited[key]` lookup found"}, nil, nil
 	}
-	if _, ok := look.X.(*ssa.MakeMap); !ok {
+	mm, ok := look.X.(*ssa.MakeMap)
+	if !ok {
 		return nil, []string{"the key set is not a map created in this call: " + p.describe(look.X)}, nil
 	}
 	inner := innermostLoop(fn, look.Block())
@@ -618,6 +621,9 @@ func (p *Program) c11DuplicateCheck(fn *ssa.Function) (problems, unknown, notes 
 	out, why := p.c11LoopShape(outer)
 	if out == nil {
 		return nil, []string{"outer loop: " + why}, nil
+	}
+	if outer.Body[mm.Block()] {
+		problems = append(problems, "the key set is re-created inside the loop over the phases: duplicates across phases are not seen")
 	}
 	if stripConv(out.coll) != ssa.Value(phases) {
 		problems = append(problems, "the outer loop is bounded by len("+p.describe(out.coll)+"), not by the phases parameter")
@@ -1206,12 +1212,15 @@ func c11NamespaceRule(c *Ctx, fn *ssa.Function) {
 		if !p.pfErrMayBeNil(rc.Facts, rc.Results[1]) {
 			continue
 		}
-		v := rc.Results[0]
-		if pfAddsViolation(v) || pfNonEmptySliceLit(v) {
-			continue
-		}
+		// NB: the raw operand, not the resolved one: the engine's reaching-stores resolution does not model
+		// the path on which the named result still holds its zero value (no store), which is exactly the
+		// "no violation" path this rule is about. Paths are separated by cutting the violation-adding blocks.
+		v := rc.Ret.Results[0]
 		if u, isU := v.(*ssa.UnOp); isU && u.Op == token.MUL && resAlloc != nil && u.X == ssa.Value(resAlloc) {
 			targets = append(targets, target{rc})
+			continue
+		}
+		if pfAddsViolation(v) || pfNonEmptySliceLit(v) {
 			continue
 		}
 		if isNilConst(stripConv(v)) {
